@@ -562,7 +562,9 @@ func sweepTasks(r *hx.Rand, total int) []*task {
 
 	families := relatedFamilies()
 	composites := compositeValues()
+	results := resultVariants()
 	pool = append(pool, composites...)
+	pool = append(pool, results...)
 	names := append(allNames(), opNames...)
 	per := total / len(names)
 	if per < 20 {
@@ -601,6 +603,24 @@ func sweepTasks(r *hx.Rand, total int) []*task {
 					for _, b := range fam {
 						add([]VSpec{a, b})
 					}
+				}
+			}
+		}
+		// every structured result: alone for every function; on a grid of names and confidences for the intent tests,
+		// of categories for has_category
+		if kind == "call" {
+			for _, res := range results {
+				add([]VSpec{res})
+				switch name {
+				case "has_intent", "has_top_intent":
+					for _, in := range []string{"book_flight", "book_hotel", "nope", ""} {
+						for _, conf := range []string{"0", "0.5", "0.9", "2"} {
+							add([]VSpec{res, named("'"+in+"'", vText(in)), named(conf, vNum(conf))})
+						}
+					}
+				case "has_category":
+					add([]VSpec{res, named("'Success'", vText("Success"))})
+					add([]VSpec{res, named("'Red'", vText("Red")), named("'Success'", vText("Success"))})
 				}
 			}
 		}
